@@ -119,6 +119,8 @@ def sgx_world(ch, windows=None, extra_cfg=None, qe_auth=None, include_root=None,
     att_sk = sgxpki.sk_from(b"attkey" + seed)
     if qe_auth is None:
         qe_auth = ch.bytes(ch.pick([32, 0, 1, 1000, 200], "qe.auth.len"), "qe.auth")
+    if qe_auth and ch.draw(4, "qe.auth.zero-tail") == 1:
+        qe_auth = qe_auth[:-1] + b"\x00"          # binary data: a trailing zero byte is a byte of it
     if qe_digest_zero_tail:
         # QE authentication data chosen so that the digest the QE report commits to ends in a zero byte
         import hashlib as _h
